@@ -80,6 +80,8 @@ def itemOf? (t : Term) : Option Item :=
         (← natLt? 4294967296 ts) (← bytesLen? 4 rid) (← natLt? 4294967296 asn) (← embOf? e)))
   | .list [.atom "ev-mrt", src, fam, ap, nl, att, nh, ts, e] => do
       pure (.ev (.mrt (← changeOf? src fam ap nl att nh ts) (← embOf? e)))
+  | .list [.atom "ev-locup", rid, asn, e] => do
+      pure (.ev (.locUp (← bytesLen? 4 rid) (← natLt? 4294967296 asn) (← embOf? e)))
   | .list [.atom "ev-down", peer, up, r, e] => do
       let (addr, asn, id) ← peerOf? peer
       pure (.ev (.down addr asn id (← natLt? 18446744073709551616 up) (← sessOf? r) (← downEmbOf? e)))
